@@ -84,10 +84,11 @@ type Step struct {
 type StopSpec struct {
 	// AtMs >= 0: cancel at this virtual time after Run was started (Steps are ignored);
 	// AtMs < 0: cancel after the last step.
-	AtMs      int `json:"atMs"`
-	PwmWrite  int `json:"pwmWrite,omitempty"`
-	ModeWrite int `json:"modeWrite,omitempty"`
-	ModeRead  int `json:"modeRead,omitempty"`
+	AtMs      int  `json:"atMs"`
+	OnGrid    bool `json:"onGrid,omitempty"` // cancel exactly on the millisecond grid (may coincide with a tick)
+	PwmWrite  int  `json:"pwmWrite,omitempty"`
+	ModeWrite int  `json:"modeWrite,omitempty"`
+	ModeRead  int  `json:"modeRead,omitempty"`
 }
 
 type LoopScenario struct {
@@ -139,7 +140,7 @@ type LoopResult struct {
 	// ProbeEvals: curve evaluations during one extra tick after the last step (-1: not probed)
 	ProbeEvals  int        `json:"probeEvals"`
 	ProbeWrites []WriteRec `json:"probeWrites,omitempty"`
-	Panic      string `json:"panic,omitempty"`
+	Panic       string     `json:"panic,omitempty"`
 }
 
 // Rig is the assembled fan with its devices.
@@ -278,6 +279,13 @@ func (r *Rig) Close() { Unregister(r.paths...) }
 // wake-ups lie, so that no two of them ever become runnable at the same virtual instant.
 const pollOffset = 137 * time.Nanosecond
 
+func offGrid(on bool) time.Duration {
+	if on {
+		return 0
+	}
+	return time.Microsecond
+}
+
 var ErrScripted = errors.New("verif: scripted curve evaluation error")
 
 // RunLoop executes sc against the real controller.Run inside a synctest bubble.
@@ -352,7 +360,7 @@ func RunLoop(t *testing.T, sc LoopScenario) (res LoopResult) {
 					if err != nil {
 						res.RunErr = err.Error()
 					}
-				case <-time.After(10 * time.Minute):
+				case <-time.After(40 * time.Minute):
 					res.Hung = true
 				}
 			}
@@ -372,7 +380,7 @@ func RunLoop(t *testing.T, sc LoopScenario) (res LoopResult) {
 				if err != nil {
 					res.RunErr = err.Error()
 				}
-			case <-time.After(time.Duration(sc.Stop.AtMs)*time.Millisecond + 1*time.Microsecond):
+			case <-time.After(time.Duration(sc.Stop.AtMs)*time.Millisecond + offGrid(sc.Stop.OnGrid)):
 			}
 			synctest.Wait()
 			res.Started = rig.Curve.Evals() > 0
